@@ -10,7 +10,7 @@ STUBS = ['clock (SimClock behind module attributes)', 'scripted optimiser regist
 REGISTRY = {
     'C15': {
         'world': 'iter', 'profile': '',
-        'sessions': {'quick': 520, 'thorough': 6000},
+        'sessions': {'quick': 400, 'thorough': 6000},
         'budget': {'quick': 100, 'thorough': 1500},
         'rule': 'One case = one seeded session (config + operation list [+ fault plan]) run against the real '
                 'library in forked process lifetimes. Distinct = distinct sha256 of (operation kinds, abstract '
@@ -26,9 +26,33 @@ REGISTRY = {
             'engine thread interleaving is not scheduled (external compiled wheel); results are a deterministic function of (data, T)',
         ],
     },
+    'C14': {
+        'world': 'out', 'profile': '',
+        'sessions': {'quick': 280, 'thorough': 4000},
+        'budget': {'quick': 100, 'thorough': 1500},
+        'rule': 'One case = one seeded session of output-generating operations (estimate with html/pickle, '
+                'write_html/latex/f12/pickle, dump_on_file, validate, flat-panel save, load, recycle, TOML dump/read, '
+                'planted adversarial directory entries, backups) in one directory [+ fault plan]. Distinct = distinct '
+                'sha256 of (operation kinds, directory listing after every operation, faults fired). Non-trivial = at '
+                'least two files of the same kind were produced for one model, or a planted file collided with a '
+                'generated name.',
+        'components': {'real': REAL, 'stub': STUBS},
+        'assumptions': [
+            'sequential histories only: two concurrent processes racing in get_new_file_name are outside the quantifier',
+            'files the user names explicitly (the TOML file passed to dump_file, the target of create_backup(rename=True)) and '
+            '__*.iter / biogeme.toml are not result, report or data-dump files',
+            'model names contain no "~" (reserved by the naming scheme); parameter names are plain identifiers (report markup is not escaped)',
+            'report equality is judged with the simulated clock set to the instant of writing',
+            'tomlkit Item.comment shim active (the image has tomlkit 0.15.1, which rejects the comments dump_file writes)',
+        ],
+    },
 }
 
 LEVEL_TEXT = {
+    'C14': 'Seeded search over histories of output generation in one directory, with adversarial pre-existing entries, '
+           'I/O errors, torn/short writes and real process deaths; the directory is compared byte-for-byte with its '
+           'state before each operation at every destructive FS event and after the operation; pickles are reloaded '
+           'and every report compared under the same simulated instant. Sampling, not proof.',
     'C15': 'Seeded search over evaluation histories x crash points x I/O faults: every file-system event of every '
            'session is a virtual crash point at which the directory is judged against a reference model of the '
            'admissible file contents; sampled events are turned into real process deaths (fork/_exit) followed by a '
@@ -44,7 +68,6 @@ NOT_APPLICABLE = {
     'C10': 'not yet built in this tree (planned: W-eval draws profile)',
     'C12': 'not yet built in this tree (planned: W-eval fault profile)',
     'C13': 'not yet built in this tree (planned: W-db)',
-    'C14': 'not yet built in this tree (planned: W-out)',
     'C16': 'not yet built in this tree (planned: W-cat)',
     'C02': 'derivatives are a pure function of (formula, row, parameter point): no schedule, clock, fault or history; deciding it is numerical differential testing, not simulation',
     'C05': 'choice probabilities are pure algebra of utilities, availabilities and nest parameters: nothing for a simulator to schedule or fault',
